@@ -4,6 +4,8 @@ import BU.Spec.Ecdsa
 import BU.Spec.CurveLaws
 import BU.Model.Msg
 import BU.Proofs.MsgLemmas
+import BU.Proofs.MsgSign
+import BU.Proofs.CurveLawsFinal
 /-!
 # C14 — signed messages: sign, verify and key recovery agree and interoperate
 
@@ -58,21 +60,139 @@ def ecdsaSigOf (d k z : Nat) (xr : Nat) : Nat × Nat := (xr % n, invN k * ((z % 
 /-- **sign then verify** (under the group laws): for every key, message and nonce — in the overwhelmingly common
 case x(R) < n, r, s ≠ 0 — the header search returns the compact signature whose header encodes R's y parity
 (27/28, or 31/32 when compressed), that signature verifies against the signer's address and that message, and
-key recovery returns exactly d·G.  `hne`: the P2PKH addresses of d·G and of the other candidate key differ
-(distinct HASH160s). -/
-theorem sign_verifies (laws : CurveLaws) (sha256 : Bytes → Bytes) (hlen : ∀ b, (sha256 b).length = 32)
+key recovery returns exactly d·G.  `hne`: the P2PKH addresses of d·G and of any other key differ
+(distinct HASH160s).  `hinf`: when R has odd y the header search first tries the even-y candidate, whose key is the
+point at infinity exactly when 2z + r·d ≡ 0 (mod n); python-ecdsa then raises an error that `sign_message` does not
+catch (probability ≈ 2⁻²⁵⁶, no reachable input known; witness of the model's behaviour: `hinf_witness` below). -/
+theorem sign_verifies (laws : CurveLaws) (sha256 : Bytes → Bytes)
     (magic : Bytes) (addrOf : Nat × Nat → Bool → String)
     (d : Nat) (hd : 1 ≤ d ∧ d < n) (px py : Nat) (hP : mul G d = some (px, py))
     (k : Nat) (hk : 1 ≤ k ∧ k < n) (xr yr : Nat) (hR : mul G k = some (xr, yr)) (hxr : xr < n)
     (msg : Bytes) (compressed : Bool)
     (r s : Nat) (hrs : (r, s) = ecdsaSigOf d k (ofBE (msgDigest sha256 magic msg)) xr) (hr0 : r ≠ 0) (hs0 : s ≠ 0)
-    (hne : ∀ q : Nat × Nat, q ≠ (px, py) → addrOf q compressed ≠ addrOf (px, py) compressed) :
+    (hne : ∀ q : Nat × Nat, q ≠ (px, py) → addrOf q compressed ≠ addrOf (px, py) compressed)
+    (hinf : yr % 2 = 1 → (2 * ofBE (msgDigest sha256 magic msg) + r * d) % n ≠ 0) :
     let rs := beBytes 32 r ++ beBytes 32 s
     let hdr := (if compressed then 31 else 27) + (if yr % 2 = 0 then 0 else 1)
     let sig := [UInt8.ofNat hdr] ++ rs
     signMessageHeader sha256 magic addrOf (px, py) compressed rs msg = .ok (some sig) ∧
     verifyMessage sha256 magic addrOf (addrOf (px, py) compressed) sig msg = .ok true ∧
     (msg ≠ [] → recoverPub sha256 magic msg sig = .ok (px, py)) := by
-  sorry
+  intro rs hdr sig
+  have hn := MsgSign.n_pos
+  have hnodd := MsgSign.n_odd
+  have hpodd := KeyLemmas.p_odd
+  generalize hz : ofBE (msgDigest sha256 magic msg) = z at hrs hinf
+  -- the signature equations
+  have hr : r = xr := by
+    have := congrArg Prod.fst hrs
+    simp only [ecdsaSigOf] at this
+    rw [this, Nat.mod_eq_of_lt hxr]
+  have hs : s = invN k * ((z % n + r * d) % n) % n := by
+    have := congrArg Prod.snd hrs
+    simp only [ecdsaSigOf] at this
+    rw [this, hr, Nat.mod_eq_of_lt hxr]
+  have hsn : s < n := by rw [hs]; exact Nat.mod_lt _ hn
+  have hrn : r < n := by omega
+  have hkk := laws.invN_mul k (by omega) hk.2
+  have hrr : r * invN (r % n) % n = 1 := by
+    rw [Nat.mod_eq_of_lt hrn]; exact laws.invN_mul r (by omega) hrn
+  obtain ⟨_, hyr0, hyrp⟩ := laws.coords k xr yr hR
+  -- the candidate from R itself is the signer's key
+  have hcand : MsgSign.candScalar k z r s = d := by
+    unfold MsgSign.candScalar
+    exact MsgLemmas.scalar_k n k d z r s (invN k) (invN (r % n)) hd.2 hkk hrr hs
+  have hq : mul G (MsgSign.candScalar k z r s) = some (px, py) := by rw [hcand]; exact hP
+  -- evaluation of verify_message at the header naming R's own parity
+  have hgood : ∀ address, verifyMessage sha256 magic addrOf address sig msg =
+      if addrOf (px, py) compressed = address then .ok true else .ok false := by
+    intro address
+    rw [MsgLemmas.verifyMessage_eq, hz]
+    have := MsgSign.verify_cand laws z addrOf address k xr yr r s hk.2 hR hr.symm hr0 hrn hs0 hsn hdr
+      (by cases compressed <;> by_cases hev : yr % 2 = 0 <;> simp [hdr, hev])
+      (if yr % 2 = 0 then 0 else 1) (by cases compressed <;> by_cases hev : yr % 2 = 0 <;> simp [hdr, hev]) (by split <;> omega)
+      (by split <;> omega) (px, py) hq
+    rw [this]
+    have hc : decide (hdr ≥ 31) = compressed := by
+      cases compressed <;> by_cases hev : yr % 2 = 0 <;> simp [hdr, hev]
+    rw [hc]
+  have hver : verifyMessage sha256 magic addrOf (addrOf (px, py) compressed) sig msg = .ok true := by
+    rw [hgood, if_pos rfl]
+  refine ⟨?_, hver, ?_⟩
+  · -- the header search
+    unfold signMessageHeader
+    by_cases hev : yr % 2 = 0
+    · -- even y: the first header verifies
+      have hsig : sig = [UInt8.ofNat ((if compressed then 31 else 27) + 0)] ++ rs := by
+        simp only [sig, hdr, if_pos hev]
+      rw [signMessageHeader.go, ← hsig, hver]
+    · -- odd y: the first header reconstructs the other candidate, which is rejected on the address
+      have hodd : yr % 2 = 1 := by omega
+      have hneg : mul G (n - k) = some (xr, p - yr) := by
+        have := laws.neg_mulG k hk.2
+        rw [hR, Nat.mod_eq_of_lt (by omega : n - k < n)] at this
+        rw [← this, SchnorrLemmas.neg_some xr yr hyr0 hyrp]
+      have he0 := MsgLemmas.negk_ne_zero n k d z r s (invN k) (invN (r % n)) hn (Nat.le_of_lt hk.2) hkk hrr hs (hinf hodd)
+      have hed := MsgLemmas.negk_ne_d n k d z r s (invN k) (invN (r % n)) hnodd (Nat.le_of_lt hk.2) hkk hrr hs hs0
+      have hclt : MsgSign.candScalar (n - k) z r s < n := Nat.mod_lt _ hn
+      obtain ⟨q', hq'⟩ : ∃ q', mul G (MsgSign.candScalar (n - k) z r s) = some q' := by
+        cases hm : mul G (MsgSign.candScalar (n - k) z r s) with
+        | none => exact absurd hm (laws.mulG_ne_none _ (Nat.pos_of_ne_zero he0) hclt)
+        | some q' => exact ⟨q', rfl⟩
+      have hqne : q' ≠ (px, py) := by
+        intro h
+        rw [h, ← hP] at hq'
+        exact hed (MsgSign.mulG_inj laws _ _ hclt hd.2 hq')
+      have hfirst : verifyMessage sha256 magic addrOf (addrOf (px, py) compressed)
+          ([UInt8.ofNat ((if compressed then 31 else 27) + 0)] ++ rs) msg = .ok false := by
+        rw [MsgLemmas.verifyMessage_eq, hz]
+        have := MsgSign.verify_cand laws z addrOf (addrOf (px, py) compressed) (n - k) xr (p - yr) r s (by omega) hneg
+          hr.symm hr0 hrn hs0 hsn ((if compressed then 31 else 27) + 0) (by cases compressed <;> simp) 0
+          (by cases compressed <;> simp) (by omega) (by omega) q' hq'
+        rw [this]
+        have hc : decide ((if compressed then 31 else 27) + 0 ≥ 31) = compressed := by
+          cases compressed <;> simp
+        rw [hc, if_neg (hne q' hqne)]
+      have hsig : sig = [UInt8.ofNat ((if compressed then 31 else 27) + (0 + 1))] ++ rs := by
+        simp only [sig, hdr, if_neg hev]
+      rw [signMessageHeader.go, hfirst]
+      simp only
+      rw [signMessageHeader.go, ← hsig, hver]
+  · -- key recovery
+    intro hmsg
+    have hrec := MsgSign.recover_cand laws k xr yr z r s (if yr % 2 = 0 then 0 else 1) hk.2 hR hr.symm hr0 hrn hs0 hsn
+      (by split <;> omega) (by split <;> omega)
+    rw [hq] at hrec
+    have hh : (sig.getD 0 0).toNat = hdr := by
+      simp only [sig, rs]; rw [MsgSign.sig_head]
+      cases compressed <;> by_cases hev : yr % 2 = 0 <;> simp [hdr, hev]
+    have hrid : (hdr - 27) % 4 = (if yr % 2 = 0 then 0 else 1) := by
+      cases compressed <;> by_cases hev : yr % 2 = 0 <;> simp [hdr, hev]
+    have hwin : (27 ≤ hdr ∧ hdr ≤ 34) := by
+      cases compressed <;> by_cases hev : yr % 2 = 0 <;> simp [hdr, hev]
+    unfold recoverPub
+    have hemp : msg.isEmpty = false := by cases msg <;> simp_all
+    have hlen : sig.length = 65 := MsgSign.sig_length _ r s
+    have hrr' : ofBE ((sig.drop 1).take 32) = r := MsgSign.sig_r _ r s (by have := MsgSign.n_lt256; omega)
+    have hss' : ofBE ((sig.drop 33).take 32) = s := MsgSign.sig_s _ r s (by have := MsgSign.n_lt256; omega)
+    simp only [hemp, hlen, hh, hrid, hz, hrr', hss', hrec, hwin]
+    rfl
+
+/-- sign-then-verify without the group-law hypothesis (`CurveLaws` is a theorem: `BU/Proofs/CurveLawsFinal.lean`) -/
+theorem sign_verifies_unconditional (sha256 : Bytes → Bytes)
+    (magic : Bytes) (addrOf : Nat × Nat → Bool → String)
+    (d : Nat) (hd : 1 ≤ d ∧ d < n) (px py : Nat) (hP : mul G d = some (px, py))
+    (k : Nat) (hk : 1 ≤ k ∧ k < n) (xr yr : Nat) (hR : mul G k = some (xr, yr)) (hxr : xr < n)
+    (msg : Bytes) (compressed : Bool)
+    (r s : Nat) (hrs : (r, s) = ecdsaSigOf d k (ofBE (msgDigest sha256 magic msg)) xr) (hr0 : r ≠ 0) (hs0 : s ≠ 0)
+    (hne : ∀ q : Nat × Nat, q ≠ (px, py) → addrOf q compressed ≠ addrOf (px, py) compressed)
+    (hinf : yr % 2 = 1 → (2 * ofBE (msgDigest sha256 magic msg) + r * d) % n ≠ 0) :
+    let rs := beBytes 32 r ++ beBytes 32 s
+    let hdr := (if compressed then 31 else 27) + (if yr % 2 = 0 then 0 else 1)
+    let sig := [UInt8.ofNat hdr] ++ rs
+    signMessageHeader sha256 magic addrOf (px, py) compressed rs msg = .ok (some sig) ∧
+    verifyMessage sha256 magic addrOf (addrOf (px, py) compressed) sig msg = .ok true ∧
+    (msg ≠ [] → recoverPub sha256 magic msg sig = .ok (px, py)) :=
+  sign_verifies CurveLawsFinal.curveLaws sha256 magic addrOf d hd px py hP k hk xr yr hR hxr msg compressed r s hrs hr0 hs0 hne hinf
 
 end C14
